@@ -364,8 +364,8 @@ pub fn property() -> Property {
                reissuance, confidential amount; contract with a nested multi-key object; distinct by ids / text.",
         assumptions: &["harness SHA-256 / fast merkle root as in C18"],
         subs: vec![
-            Sub { name: "issuance_ids", kind: Kind::Tape { max_len: 1500, quick: 40_000, thorough: 1_000_000, f: issuance_ids } },
-            Sub { name: "json_contracts", kind: Kind::Tape { max_len: 1200, quick: 20_000, thorough: 400_000, f: json_contracts } },
+            Sub { name: "issuance_ids", kind: Kind::Tape { max_len: 1500, quick: 600_000, thorough: 5_000_000, f: issuance_ids } },
+            Sub { name: "json_contracts", kind: Kind::Tape { max_len: 1200, quick: 300_000, thorough: 2_000_000, f: json_contracts } },
         ],
         known: vec![Known { key: KF_PSET_FLAGS, what: "pset::Input::issuance_ids hashes the outpoint index including the pegin/issuance flag bits", repro: repro_pset_flags }],
     }
